@@ -334,16 +334,18 @@ func refsCases(text string, maxQ int, seed int64) (recs []map[string]any) {
 		walked := own != nil && decls(own, nil, objs, edges)
 		type q struct {
 			key  string
-			want []string // object: lower-cased absolute path; connection: [src, arrow, dst] lower-cased absolute
+			want []string // object: lower-cased absolute path (raw names); connection: [src, arrow, dst] lower-cased absolute
+			fmtd []string // the same in d2 syntax (quoted segments), what the re-parsed slices are compared with
 			edge bool
 		}
 		var qs []q
 		for _, o := range b.g.Objects {
-			p := []string{}
+			p, pf := []string{}, []string{}
 			for x := o; x != nil && x.Parent != nil; x = x.Parent {
 				p = append([]string{strings.ToLower(x.IDVal)}, p...)
+				pf = append([]string{strings.ToLower(x.ID)}, pf...)
 			}
-			qs = append(qs, q{key: o.AbsID(), want: p})
+			qs = append(qs, q{key: o.AbsID(), want: p, fmtd: pf})
 		}
 		seen := map[string]bool{}
 		for _, e := range b.g.Edges {
@@ -359,7 +361,8 @@ func refsCases(text string, maxQ int, seed int64) (recs []map[string]any) {
 				continue
 			}
 			seen[k] = true
-			qs = append(qs, q{key: k, want: []string{strings.Join(sp, "."), e.ArrowString(), strings.Join(dp, ".")}, edge: true})
+			qs = append(qs, q{key: k, want: []string{strings.Join(sp, "."), e.ArrowString(), strings.Join(dp, ".")},
+				fmtd: []string{strings.ToLower(e.Src.AbsID()), e.ArrowString(), strings.ToLower(e.Dst.AbsID())}, edge: true})
 		}
 		if maxQ > 0 && len(qs) > maxQ {
 			qr.Shuffle(len(qs), func(i, j int) { qs[i], qs[j] = qs[j], qs[i] })
@@ -370,7 +373,7 @@ func refsCases(text string, maxQ int, seed int64) (recs []map[string]any) {
 			if b.path == nil {
 				in["board"] = []string{}
 			}
-			out := map[string]any{"edge": qq.edge, "want": qq.want}
+			out := map[string]any{"edge": qq.edge, "want": qq.fmtd}
 			var ranges, imports []d2ast.Range
 			var rerr error
 			oc := hl.Guard(func() { ranges, imports, rerr = d2lsp.GetRefRanges("index.d2", fs, b.path, qq.key) })
